@@ -175,9 +175,14 @@ def arith(it, opn, a, b, node):
             r = Val(t, space=_space(a, b), series=getattr(a, "series", False) or getattr(b, "series", False))
             if axes is not None:
                 r.axes = axes
+            r.fresh = True
             return r
-        return Unk(t, space=_space(a, b))
-    return Unk(mk(opn, to_term(a), to_term(b)), space=_space(a, b))
+        u = Unk(t, space=_space(a, b))
+        u.fresh = True
+        return u
+    u = Unk(mk(opn, to_term(a), to_term(b)), space=_space(a, b))
+    u.fresh = True
+    return u
 
 
 def frame_arith(it, opn, a, b, node):
@@ -961,7 +966,10 @@ def setitem(it, obj, idx, value, node, fr):
         tgt = node.targets[0] if isinstance(node, ast.Assign) else getattr(node, "target", None)
         if isinstance(tgt, ast.Subscript) and isinstance(tgt.value, ast.Name) and isinstance(obj, Val):
             nv = imgdom.index_store(it, obj, idx, value, node)
+            if nv is None:
+                nv = imgdom.slab_store(it, obj, idx, value, node)
             if nv is not None:
+                nv.fresh = getattr(obj, "fresh", None)
                 fr.env[tgt.value.id] = nv
                 return
         if isinstance(tgt, ast.Subscript) and isinstance(tgt.value, ast.Name):
